@@ -95,6 +95,7 @@ theorem childEffect_frame (mode : Mode) (prog : Prog) (oc : Outcome) (fs : FS P)
         · rfl
         · exact FS.get_set_ne fs _ hpo
         · exact FS.get_erase_ne fs hpo
+        · rfl
 
 theorem childOut_congr (mode : Mode) (prog : Prog) (fs gs : FS P) (inp : List P)
     (h : ∀ p ∈ inp, fs.get p = gs.get p) : childOut mode prog fs inp = childOut mode prog gs inp := by
@@ -121,6 +122,7 @@ theorem childEffect_congr (mode : Mode) (prog : Prog) (oc : Outcome) (fs gs : FS
         · exact hp
         · rw [FS.get_set, FS.get_set, hp]
         · rw [FS.get_erase, FS.get_erase, hp]
+        · exact hp
 
 /-- frame: a step changes nothing outside the write set -/
 theorem step_frame (env : Env P) (W F : P → Prop) (s : DState P) (fs : FS P) (hin : Inside env W F s)
@@ -427,6 +429,7 @@ theorem plan_outs (cmd : Cmd P) (n : Nat) (i : Input P) :
   intro p hp
   unfold plan at hp
   unfold isUnit unitOutput
+  cases hd : cmd.depsOnly <;> simp only [hd] at hp ⊢ <;>
   cases hk : effKind cmd.mode i.kind <;> simp only [hk] at hp ⊢ <;>
     cases hm : cmd.mode <;> simp only [hm] at hp ⊢ <;>
     cases ho : cmd.out <;> simp_all [unitOutput, actOuts, Ref.paths]
@@ -434,6 +437,7 @@ theorem plan_outs (cmd : Cmd P) (n : Nat) (i : Input P) :
 theorem plan_ins (cmd : Cmd P) (n : Nat) (i : Input P) : ∀ p ∈ actIns (plan cmd n i), p = i.path := by
   intro p hp
   unfold plan at hp
+  cases hd : cmd.depsOnly <;> simp only [hd] at hp <;>
   cases hk : effKind cmd.mode i.kind <;> simp only [hk] at hp <;>
     cases hm : cmd.mode <;> simp_all [actIns, Ref.paths]
 
@@ -454,14 +458,15 @@ theorem actIns_append (a b : List (Act P)) : actIns (a ++ b) = actIns a ++ actIn
 
 theorem compileLoop_outs (cmd : Cmd P) (n : Nat) (l : List (Input P)) :
     ∀ p ∈ actOuts (compileLoop cmd n l),
-      (cmd.mode = .link ∧ p = cmd.out.getD cmd.aout) ∨
+      (cmd.mode = .link ∧ cmd.depsOnly = false ∧ p = cmd.out.getD cmd.aout) ∨
       (cmd.mode ≠ .link ∧ p ∈ (l.filter (isUnit cmd)).map (unitOutput cmd)) := by
   induction l generalizing n with
   | nil =>
     intro p hp
     simp only [compileLoop] at hp
     split at hp
-    · left; simp [actOuts] at hp; exact ⟨by assumption, hp⟩
+    · rename_i hc
+      left; simp [actOuts] at hp; exact ⟨hc.1, hc.2, hp⟩
     · simp [actOuts] at hp
   | cons i r ih =>
     intro p hp
@@ -501,9 +506,15 @@ theorem compile_outs (cmd : Cmd P) : ∀ p ∈ actOuts (compile cmd), p ∈ requ
   · split at hp
     · simp [actOuts] at hp
     · unfold requested
-      rcases compileLoop_outs cmd 0 cmd.inputs p hp with ⟨h1, h2⟩ | ⟨h1, h2⟩
-      · simp [h1, h2]
-      · simp only [h1, if_false]; exact h2
+      rcases compileLoop_outs cmd 0 cmd.inputs p hp with ⟨h1, h2, h3⟩ | ⟨h1, h2⟩
+      · simp [h1, h2, h3]
+      · cases hd : cmd.depsOnly with
+        | true =>
+          exfalso
+          obtain ⟨u, hu, _⟩ := List.mem_map.mp h2
+          have := (List.mem_filter.mp hu).2
+          simp [isUnit, hd] at this
+        | false => simp only [h1, if_false, Bool.false_eq_true]; exact h2
 
 theorem compile_ins (cmd : Cmd P) : ∀ p ∈ actIns (compile cmd), p ∈ cmd.inputs.map (·.path) := by
   intro p hp
